@@ -40,6 +40,13 @@ def dry_run(sim, request: List[Any]) -> Tuple[List[Dict[str, bool]], bool]:
             rm = rt.func
             rest = opts
             continue
+        # a route registered as `component.apply_request` is the same delegation written differently (apply_request only
+        # hands the request to the component's own manager): the permission rules behind it are on the path as well
+        owner = getattr(rt.func, "__self__", None)
+        if getattr(rt.func, "__name__", "") == "apply_request" and isinstance(getattr(owner, "_request_manager", None), RequestManager):
+            rm = owner._request_manager
+            rest = opts
+            continue
         return obs, True
 
 
